@@ -311,8 +311,40 @@ def verdict (o : Observed) : Option String :=
     else if 0 < o.carried then some "carry-over"
     else none
 
-/-- after `stop()`: every one of the W processes has an exit code -/
-def stopVerdict (W exited : Nat) : Option String :=
-  if exited = W then none else some "stop-does-not-join"
+/-! ## `stop()` after `play_many` has raised (the `finally: engine.stop()` of `play_many_games`)
+
+  `play_many`'s `except` branch has SIGKILLed every worker before re-raising, so nobody will read
+  `cmd` again, and `cmd` may still hold up to 2W ids.  `stop()` then runs
+  `for _ in range(W): cmd.put(None, block=False)`, `shutdown.set()`, `join` of (dead) processes.
+  The loop is structural recursion on the number of puts left: at most W put attempts.
+  `blocking = true` is the variant `cmd.put(None)`: with a full queue and no reader it waits for ever. -/
+
+inductive StopRes where
+  | joined      -- all W `None`s fitted, event set, every (dead) process joined: `stop()` returns
+  | full        -- a non-blocking put found the queue full: `queue.Full` propagates (loud)
+  | blocked     -- a blocking put waits for a reader that no longer exists
+  deriving DecidableEq, Repr
+
+/-- `cap` = maxsize of `cmd`, `cmd` = ids still queued, third argument = puts left -/
+def stopAfterRaise (blocking : Bool) (cap cmd : Nat) : Nat → StopRes
+  | 0 => .joined
+  | k + 1 =>
+    if cmd < cap then stopAfterRaise blocking cap (cmd + 1) k
+    else if blocking then .blocked else .full
+
+/-- what `p.kill()` for every process leaves behind -/
+def killAll (s : State) : State :=
+  { s with ws := s.ws.map fun w => if w.live then .dead killCode else w }
+
+/-- after `stop()` (or the teardown after a raise): every one of the W processes has an exit code,
+    and the call itself came back (returned, or raised — after a failure `queue.Full` is loud enough) -/
+inductive StopObs where
+  | returned | raised | blocked
+  deriving DecidableEq, Repr
+
+def stopVerdict (W exited : Nat) (afterFailure : Bool) (o : StopObs) : Option String :=
+  match o with
+  | .blocked => some (if afterFailure then "stop-hangs-after-failure" else "stop-does-not-join")
+  | _ => if exited = W then none else some "stop-does-not-join"
 
 end Tak.Pool
